@@ -5,6 +5,9 @@ import (
 	"strings"
 )
 
+// ExecOutMax bounds the length of a modelled command output (bytes).
+const ExecOutMax = 8
+
 const repoMod = "github.com/ErdemOzgen/blackdagger"
 
 // Stubs of repo functions that are pure I/O shells (DESIGN.md section 3.4).
@@ -78,6 +81,7 @@ func (e *Engine) EnableStub(name, kind string) {
 			in := c.argTerm(0)
 			m := StrInRe(in, Raw(SRegLan, 0, "(re.++ re.all (str.to_re \"`\") (re.+ (re.diff re.allchar (str.to_re \"`\"))) (str.to_re \"`\") re.all)"))
 			out := FreshVar("subst.out", SString, 0)
+			c.St.Assume(intCmp("<=", StrLenInt(out), IntC(ExecOutMax)))
 			ok := FreshVar("subst.ok", SBool, 0)
 			c.St.Nondets = append(c.St.Nondets, NondetRec{Tag: "subst.ok", Kind: "bool", Term: ok})
 			errv := c.E.newErrorString(c.St, StrC("exec: command failed"))
